@@ -4,6 +4,8 @@ import MoneroModel.Proofs.EdwardsLawful
 import MoneroModel.Proofs.EdwardsTorsion8
 import MoneroModel.Proofs.GroupRefine
 import MoneroModel.Proofs.GroupRefineScan
+import MoneroModel.Proofs.EdwardsPermissive
+import MoneroModel.Drv.C10
 /-! C10 — "Key derivation is Monero's cofactor-cleared Diffie-Hellman for every curve point".
 About the model `Monero.derive` / `Monero.oneTimeKey` (Model/Crypto.lean: `KeyGenerator::{from_key, from_random, one_time_key,
 get_rvn_scalar}` at HEAD of /repo, i.e. after the fix commit) and the by-the-book sender `Spec.Sender`. Every theorem holds
@@ -107,30 +109,44 @@ DEFINITIONAL COPIES of `derive` — `rfl`: `Monero.deriveSender_eq_derive`, Proo
 functions" in a way that `C10_sender_receiver` does not; that `from_random` and `from_key` as COMPILED agree with the model is
 evidence of the differential run only (the harness calls each of them). What the point-level definitions hide, and what is proved
 here, is the panic site: both `Mul` steps go through `PublicKey::point()` (decompress + `expect`) on stored bytes
-(`deriveSenderBytes` / `deriveReceiverBytes`, `mulKeyBytes`). `keyGenCheck` is the model of `KeyGenerator::check` (byte equality of
+(`deriveSenderBytes` / `deriveReceiverBytes`, `mulKeyBytes`; the decoder of `point()` — dalek's permissive `decompress`, which accepts
+MORE than `PublicKey::from_slice` — is their parameter `decP`, and the driver evaluates `deriveReceiverBytes` for `c10_derive_raw`
+against `from_key` on a `PublicKey` built through its public field: `C10_driver_refines_raw`). `keyGenCheck` is the model of `KeyGenerator::check` (byte equality of
 the compressed keys). -/
 
-/-- **no panic, and the value, from the stored bytes**: on the encoding of EVERY point (with or without a small-order component)
-neither `point()` call inside `from_random` / `from_key` hits its `expect` — the intermediate `PublicKey` is the compression of a
-point — and `rv` is the encoding of `8•(scalar•point)`; on bytes that the (strict) decoder refuses the model says "panic". -/
-theorem C10_constructors (L : Lawful ops) (r v : ℕ) (V R : P) :
-    deriveSenderBytes ops r (ops.enc V) = some (ops.enc (8 • (r • V))) ∧
-    deriveReceiverBytes ops v (ops.enc R) = some (ops.enc (8 • (v • R))) ∧
-    deriveSenderBytes ops r (ops.enc V) = some (ops.enc (deriveSender ops r V)) ∧
-    deriveReceiverBytes ops v (ops.enc R) = some (ops.enc (deriveReceiver ops v R)) ∧
-    (∀ b, ops.dec b = none → deriveSenderBytes ops r b = none ∧ deriveReceiverBytes ops v b = none) := by
-  refine ⟨L.deriveSenderBytes_enc r V, L.deriveReceiverBytes_enc v R, ?_, ?_, fun b hb => ?_⟩
-  · rw [L.deriveSenderBytes_enc]; exact congrArg (fun X => some (ops.enc X)) (L.derive_eq r V).symm
-  · rw [L.deriveReceiverBytes_enc]; exact congrArg (fun X => some (ops.enc X)) (L.derive_eq v R).symm
+/-- **no panic, and the value, from the stored bytes**. `decP` is the decoder of `PublicKey::point()` — dalek's PERMISSIVE
+`decompress`, NOT `from_slice` — about which only `hdec` is assumed: it accepts at least what the strict decoder accepts
+(`decPermissive_of_strict` on Ed25519; the `example` below shows the strict decoder itself is such a `decP`, so the hypothesis is
+satisfiable in every lawful instance). (1, 2) on the encoding of EVERY point (with or without a small-order component) neither
+`point()` call inside `from_random` / `from_key` hits its `expect` — the intermediate `PublicKey` is the compression of a point — and
+`rv` is the encoding of `8•(scalar•point)`; (3) the same on ANY stored bytes that `point()` decompresses, canonical or not (a
+`PublicKey` built through its public field), with `B` the point they decompress to; (4) on bytes that `point()` does NOT decompress
+both constructors panic — this mirrors the real `expect`. (3) + (4) cover every 32-byte value of the field. (That the byte-level
+constructors store the encoding of what the point-level models compute is the glue lemma `Lawful.deriveBytes_enc_eq_point`,
+`C10_derivation` under `some ∘ enc`; not repeated here.) -/
+theorem C10_constructors (L : Lawful ops) (decP : Bytes → Option P) (hdec : ∀ b X, ops.dec b = some X → decP b = some X)
+    (r v : ℕ) (V R : P) :
+    deriveSenderBytes ops decP r (ops.enc V) = some (ops.enc (8 • (r • V))) ∧
+    deriveReceiverBytes ops decP v (ops.enc R) = some (ops.enc (8 • (v • R))) ∧
+    (∀ b B, decP b = some B → deriveSenderBytes ops decP r b = some (ops.enc (8 • (r • B))) ∧
+                              deriveReceiverBytes ops decP v b = some (ops.enc (8 • (v • B)))) ∧
+    (∀ b, decP b = none → deriveSenderBytes ops decP r b = none ∧ deriveReceiverBytes ops decP v b = none) := by
+  refine ⟨L.deriveSenderBytes_enc decP hdec r V, L.deriveReceiverBytes_enc decP hdec v R, fun b B hb => ?_, fun b hb => ?_⟩
+  · exact ⟨L.deriveSenderBytes_of_dec decP hdec r b B hb, L.deriveReceiverBytes_of_dec decP hdec v b B hb⟩
   · unfold deriveSenderBytes deriveReceiverBytes mulKeyBytes; rw [hb]; exact ⟨rfl, rfl⟩
+
+/-- `hdec` is satisfiable in every instance (the strict decoder extends itself); the Ed25519 instance uses the genuinely larger
+permissive decoder (`C10_constructors_ed25519`, `C10_constructors_noncanonical_ed25519`) -/
+example : ∀ b X, ops.dec b = some X → ops.dec b = some X := fun _ _ h => h
 
 /-- clause (d) on the stored bytes (corollary of `C10_sender_receiver` and `C10_constructors`): what `from_random(V = v•G, ·, r)`
 stores as `rv` is byte for byte what `from_key((v, ·), R = r•G)` stores, and neither panics; likewise over any base point `B`
 (subaddresses: `B = S'`) -/
-theorem C10_sender_receiver_bytes (L : Lawful ops) (r v : ℕ) (B : P) :
-    deriveSenderBytes ops r (ops.enc (v • B)) = deriveReceiverBytes ops v (ops.enc (r • B)) ∧
-    (deriveSenderBytes ops r (ops.enc (v • B))).isSome = true := by
-  rw [L.deriveSenderBytes_enc, L.deriveReceiverBytes_enc, smul_comm r v]
+theorem C10_sender_receiver_bytes (L : Lawful ops) (decP : Bytes → Option P) (hdec : ∀ b X, ops.dec b = some X → decP b = some X)
+    (r v : ℕ) (B : P) :
+    deriveSenderBytes ops decP r (ops.enc (v • B)) = deriveReceiverBytes ops decP v (ops.enc (r • B)) ∧
+    (deriveSenderBytes ops decP r (ops.enc (v • B))).isSome = true := by
+  rw [L.deriveSenderBytes_enc decP hdec, L.deriveReceiverBytes_enc decP hdec, smul_comm r v]
   exact ⟨rfl, rfl⟩
 
 /-- `KeyGenerator::check(index, key)` is true for exactly one key: the generator's own `one_time_key(index)`. (This only restates
@@ -217,9 +233,14 @@ theorem C10_onetime_recognised_subaddress_ed25519 :
 theorem C10_scalar8_agrees_on_torsion_free_ed25519 :
     type_of% (@C10_scalar8_agrees_on_torsion_free EdPoint _ edOps edOps_lawful) :=
   C10_scalar8_agrees_on_torsion_free edOps_lawful
-theorem C10_constructors_ed25519 : type_of% (@C10_constructors EdPoint _ edOps edOps_lawful) := C10_constructors edOps_lawful
-theorem C10_sender_receiver_bytes_ed25519 : type_of% (@C10_sender_receiver_bytes EdPoint _ edOps edOps_lawful) :=
-  C10_sender_receiver_bytes edOps_lawful
+/-- on Ed25519 the decoder of `point()` is `decPermissive` (dalek's `decompress` into the group, Proofs/EdwardsPermissive.lean); the
+hypothesis `hdec` is the theorem `decPermissive_of_strict` -/
+theorem C10_constructors_ed25519 :
+    type_of% (@C10_constructors EdPoint _ edOps edOps_lawful decPermissive decPermissive_of_strict) :=
+  C10_constructors edOps_lawful decPermissive decPermissive_of_strict
+theorem C10_sender_receiver_bytes_ed25519 :
+    type_of% (@C10_sender_receiver_bytes EdPoint _ edOps edOps_lawful decPermissive decPermissive_of_strict) :=
+  C10_sender_receiver_bytes edOps_lawful decPermissive decPermissive_of_strict
 theorem C10_check_iff_ed25519 : type_of% (@C10_check_iff EdPoint _ edOps edOps_lawful) := C10_check_iff edOps_lawful
 theorem C10_check_accepts_sender_key_ed25519 : type_of% (@C10_check_accepts_sender_key EdPoint _ edOps edOps_lawful) :=
   C10_check_accepts_sender_key edOps_lawful
@@ -283,17 +304,17 @@ for every 32-byte scalar `a`, prints exactly the encoding of that group element 
 theorem C10_derivation_bytes (a : ℕ) (b : Bytes) (h : Keys.publicAccept b = true) :
     ∃ B : EdPoint, edOps.dec b = some B ∧ edOps.enc B = b ∧
       deriveReceiver edOps a B = 8 • (a • B) ∧ deriveSender edOps a B = 8 • (a • B) ∧
-      deriveReceiverBytes edOps a b = some (edOps.enc (8 • (a • B))) ∧
-      deriveSenderBytes edOps a b = some (edOps.enc (8 • (a • B))) ∧
+      deriveReceiverBytes edOps decPermissive a b = some (edOps.enc (8 • (a • B))) ∧
+      deriveSenderBytes edOps decPermissive a b = some (edOps.enc (8 • (a • B))) ∧
       ∃ Braw : Ed.Pt, Drv.refOps.dec b = some Braw ∧
         (a < 2 ^ 260 → Drv.refOps.enc (deriveReceiver Drv.refOps a Braw) = edOps.enc (8 • (a • B)) ∧
                        Drv.refOps.enc (deriveSender Drv.refOps a Braw) = edOps.enc (8 • (a • B))) := by
   obtain ⟨Braw, hv, h1, h2, h3⟩ := accepted_key b h
   refine ⟨toPoint Braw hv, h2, h3, edOps_lawful.derive_eq a _, edOps_lawful.derive_eq a _, ?_, ?_, Braw, h1, fun ha => ?_⟩
   · conv_lhs => rw [← h3]
-    exact edOps_lawful.deriveReceiverBytes_enc a _
+    exact edOps_lawful.deriveReceiverBytes_enc decPermissive decPermissive_of_strict a _
   · conv_lhs => rw [← h3]
-    exact edOps_lawful.deriveSenderBytes_enc a _
+    exact edOps_lawful.deriveSenderBytes_enc decPermissive decPermissive_of_strict a _
   have := refines_enc_derive refOps_refines_edOps a ha Braw hv
   rw [edOps_lawful.derive_eq] at this
   exact ⟨this, this⟩
@@ -328,5 +349,47 @@ theorem C10_driver_refines_subcheck (v : ℕ) (hv : v < 2 ^ 260) (S K R : Ed.Pt)
     (Scan.Checker.new Drv.refOps v S a b c d).check Drv.refOps n K R
       = (Scan.Checker.new edOps v (toPoint S hS) a b c d).check edOps n (toPoint K hK) (toPoint R hR) :=
   refines_checkerCheck refOps_refines_edOps v hv S hS a b c d n K R hK hR
+
+/-- `0100…0080`: y = 1 with the sign bit set ("−0"), the stored bytes the harness sends through `c10_derive_raw` -/
+def negZeroBytes : Bytes := 1 :: List.replicate 30 0 ++ [0x80]
+
+set_option maxRecDepth 100000 in
+/-- **the decoder parameter matters** (why `mulKeyBytes` takes `decP` and not `ops.dec`): `0100…0080` is NOT an accepted key
+(`PublicKey::from_slice` refuses it, the strict decoder answers `none`), but `PublicKey::point()` — dalek's permissive `decompress` —
+returns the identity on it; so on a `PublicKey` holding these bytes (public field) both constructors run through WITHOUT panic and
+store the encoding of the identity, for every scalar. (A model that decoded with `ops.dec` answered "panic" here.) -/
+theorem C10_constructors_noncanonical_ed25519 (a : ℕ) :
+    Keys.publicAccept negZeroBytes = false ∧ edOps.dec negZeroBytes = none ∧ decPermissive negZeroBytes = some 0 ∧
+    deriveReceiverBytes edOps decPermissive a negZeroBytes = some (edOps.enc 0) ∧
+    deriveSenderBytes edOps decPermissive a negZeroBytes = some (edOps.enc 0) := by
+  have hacc : Keys.publicAccept negZeroBytes = false := by decide +kernel
+  have hstrict : edOps.dec negZeroBytes = none := by
+    cases h : edOps.dec negZeroBytes with
+    | none => rfl
+    | some B => rw [(publicAccept_iff_dec _).2 ⟨B, h⟩] at hacc; cases hacc
+  have hraw : Keys.decompressDalek (Ed.leNat negZeroBytes) = some Ed.zero := by decide +kernel
+  have hperm : decPermissive negZeroBytes = some 0 := by
+    unfold decPermissive
+    rw [if_pos (by decide), Option.pmap_some' hraw, toPoint_zero]
+  refine ⟨hacc, hstrict, hperm, ?_, ?_⟩
+  · rw [edOps_lawful.deriveReceiverBytes_of_dec decPermissive decPermissive_of_strict a _ 0 hperm, smul_zero, smul_zero]
+  · rw [edOps_lawful.deriveSenderBytes_of_dec decPermissive decPermissive_of_strict a _ 0 hperm, smul_zero, smul_zero]
+
+/-- **`c10_derive_raw`: the driver's result is the theorems' object.** For every stored byte string `b` and every scalar below 2^260
+(every 32-byte scalar) what the compiled driver evaluates — `deriveReceiverBytes Drv.refOps Drv.C10.decPerm a b`, printed as hex or
+`PANIC` — is `deriveReceiverBytes edOps decPermissive a b` (same for the sender form, which no operation prints); hence, by
+`C10_constructors_ed25519`, it prints the encoding of `8•(a•B)` exactly when `point()` decompresses `b` to `B` and `PANIC` exactly
+when it does not. -/
+theorem C10_driver_refines_raw (a : ℕ) (ha : a < 2 ^ 260) (b : Bytes) :
+    deriveReceiverBytes Drv.refOps Drv.C10.decPerm a b = deriveReceiverBytes edOps decPermissive a b ∧
+    deriveSenderBytes Drv.refOps Drv.C10.decPerm a b = deriveSenderBytes edOps decPermissive a b ∧
+    (∀ B, decPermissive b = some B → deriveReceiverBytes Drv.refOps Drv.C10.decPerm a b = some (edOps.enc (8 • (a • B)))) ∧
+    (decPermissive b = none → deriveReceiverBytes Drv.refOps Drv.C10.decPerm a b = none) := by
+  have hd : ∀ w, (∀ Q, Drv.C10.decPerm w = some Q → ∃ h : Valid Q, decPermissive w = some (toPoint Q h)) ∧
+      (Drv.C10.decPerm w = none → decPermissive w = none) := fun w => decP_refines w
+  obtain ⟨h1, h2⟩ := refines_deriveBytes refOps_refines_edOps hd a ha b
+  refine ⟨h1, h2, fun B hB => ?_, fun hn => ?_⟩
+  · rw [h1]; exact edOps_lawful.deriveReceiverBytes_of_dec decPermissive decPermissive_of_strict a b B hB
+  · rw [h1]; exact ((C10_constructors_ed25519 a a 0 0).2.2.2 b hn).2
 end Ed25519
 end C10
